@@ -315,6 +315,8 @@ func NewCase(g *Gen, id int, forceValidate *bool) *Case {
 	var dest0 reflect.Value
 	var structData func() any
 	if validate {
+		g.aliasPtrs = true
+		defer func() { g.aliasPtrs = false }()
 		dest0 = g.DestValue(n, t, false)
 		if g.P.NilBias {
 			// prefer a value the implementation accepts: the "no issues" premise of C01 must be met often
